@@ -152,6 +152,8 @@ type fnCfg struct {
 	callbacks   map[string]cbCfg
 	fuel        []string // fuel expression per loop (in source order), over Lean variable names
 	pure        bool     // emit a non-monadic definition (single return expression, nothing can panic)
+	rec         bool     // the function calls itself: it takes a fuel argument shared with its loops (mutual structural recursion)
+	callFuel    map[string]string // fuel expression for calls of recursive functions, by callee Go name
 }
 
 type golite struct {
